@@ -628,7 +628,7 @@ func (fr *Frame) enterLoop(li *loopInfo, pre *State) *State {
 	}
 	// implicit frame invariant: for a function with a modifies clause, objects allocated at entry keep the contents of the
 	// heap arrays this loop writes (unless the array is listed in modifies)
-	if fr.Top && fr.Con != nil && fr.Con.ModSet {
+	if fr.Top && fr.Con != nil && fr.Con.ModSet && !fr.Con.Trusted {
 		w0 := newWriteSet()
 		var bl []*ssa.BasicBlock
 		for b := range li.body {
@@ -964,7 +964,15 @@ func (fr *Frame) step(st *State, ins ssa.Instruction, b *ssa.BasicBlock, edgeSt 
 		fr.Regs[x] = fr.lookup(st, x)
 		return st
 	case *ssa.Range:
-		fr.Regs[x] = &Val{K: KOpaque, T: x.Type(), X: Fresh("rangeiter", SInt), Fs: []*Val{fr.val(st, x.X)}}
+		mv := fr.val(st, x.X)
+		fr.Regs[x] = &Val{K: KOpaque, T: x.Type(), X: Fresh("rangeiter", SInt), Fs: []*Val{mv}}
+		if mv.K == KMap {
+			// ghost: the set of keys this iteration has produced so far (per map object; `visited(m, k)` in specifications)
+			ks := mapKeySort(mv.T)
+			key := "M:" + tstr(mv.T) + "#visited"
+			srt := SArr(SInt, SArr(ks, SBool))
+			st.heapSet(key, Store(st.heapGet(key, srt), mv.X, ConstArr(SArr(ks, SBool), TFalse)))
+		}
 		return st
 	case *ssa.Next:
 		fr.Regs[x] = fr.next(st, x)
@@ -1819,6 +1827,19 @@ func (fr *Frame) next(st *State, x *ssa.Next) *Val {
 			kt := fr.mapKeyTerm(kv)
 			has := Select(Select(st.heapGet(root+"#has", SArr(SInt, SArr(ks, SBool))), m.X), kt)
 			c.addFact(Implies(ok, And(Neq(m.X, Num(0)), has)))
+			// each key is produced at most once; when the iteration ends every key of the map has been produced - the latter
+			// only for a loop that does not write maps of this type (Go leaves entries added during the iteration unspecified)
+			vsrt := SArr(SInt, SArr(ks, SBool))
+			vis := st.heapGet(root+"#visited", vsrt)
+			mine := Select(vis, m.X)
+			c.addFact(Implies(ok, Not(Select(mine, kt))))
+			if !fr.loopWritesMap(x.Block(), root) {
+				q := BoundVar("k", ks)
+				c.addFact(Implies(Not(ok), Forall([]*Term{q}, Implies(Select(Select(st.heapGet(root+"#has", SArr(SInt, SArr(ks, SBool))), m.X), q), Select(mine, q)))))
+			} else {
+				c.note("%s: a map is written while it (or one of its type) is ranged over: 'every key was visited' is not assumed at the end of that loop", fr.Fn)
+			}
+			st.heapSet(root+"#visited", Ite(ok, Store(vis, m.X, Store(mine, kt, TTrue)), vis))
 			if _, inv2 := tp.At(2).Type().(*types.Basic); !(inv2 && tp.At(2).Type().(*types.Basic).Kind() == types.Invalid) {
 				lv := fr.mapLoadVal(st, root, ks, m.X, kt, under(t).(*types.Map).Elem(), "")
 				c.addFact(Implies(ok, eqVal(vv, lv)))
@@ -1914,4 +1935,35 @@ func callName(cc *ssa.CallCommon) string {
 		return "builtin." + b.Name()
 	}
 	return "dynamic:" + cc.Value.Name()
+}
+
+// loopWritesMap: does the innermost loop around block b (or anything it calls) write a map of this type?
+func (fr *Frame) loopWritesMap(b *ssa.BasicBlock, root string) bool {
+	var inner *loopInfo
+	for _, li := range fr.loops {
+		if li.body[b] && (inner == nil || len(li.body) < len(inner.body)) {
+			inner = li
+		}
+	}
+	if inner == nil {
+		return true
+	}
+	w := newWriteSet()
+	var bl []*ssa.BasicBlock
+	for blk := range inner.body {
+		bl = append(bl, blk)
+	}
+	fr.C.scanWrites(bl, w, 0, map[*ssa.Function]bool{})
+	if w.all {
+		return true
+	}
+	if w.prefixes[root] && !w.freshOnly[root] {
+		return true
+	}
+	for p := range w.prefixes {
+		if p != root+"#visited" && strings.HasPrefix(p, root+"#") && !w.freshOnly[p] {
+			return true
+		}
+	}
+	return false
 }
